@@ -7,6 +7,7 @@ import os
 import re
 
 ROOT = os.path.dirname(os.path.dirname(os.path.abspath(__file__)))
+OUT = os.environ.get("PYVC_OUT", ROOT)   # where evidence/ and replays/ are written (scratch runs of tools/run_seeds.py)
 
 
 def _known_findings():
@@ -39,7 +40,7 @@ def conclude(pid, tier, seed, reg, spec, keys, fn_infos, problems, jobs, results
     cover_unknown = [r for r in covers if r["verdict"] == "cover-unknown"]
     lines, violations, known_hits = [], [], []
     findings = _known_findings()
-    os.makedirs(os.path.join(ROOT, "replays", pid), exist_ok=True)
+    os.makedirs(os.path.join(OUT, "replays", pid), exist_ok=True)
 
     # ---- refuted obligations: replay, then VIOLATION or KNOWN-FINDING
     by_name = {j["name"]: j for j in jobs}
@@ -50,7 +51,7 @@ def conclude(pid, tier, seed, reg, spec, keys, fn_infos, problems, jobs, results
             continue
         path = os.path.join("replays", pid, _slug(r["name"]) + ".json")
         rep = replay.make_replay(pid, r, by_name.get(r["name"]), reg)
-        with open(os.path.join(ROOT, path), "w") as fh:
+        with open(os.path.join(OUT, path), "w") as fh:
             json.dump(rep, fh, indent=1)
         confirmed = rep.get("native", {}).get("confirmed", False)
         violations.append((r, path, confirmed))
@@ -61,7 +62,7 @@ def conclude(pid, tier, seed, reg, spec, keys, fn_infos, problems, jobs, results
                 known_hits.append((f, dict(name=b["name"] + ":" + v.get("case", ""))))
                 continue
             path = os.path.join("replays", pid, _slug(b["name"] + "_" + v.get("case", "case") + "_" + json.dumps(v.get("input"), sort_keys=True, default=str)) + ".json")
-            with open(os.path.join(ROOT, path), "w") as fh:
+            with open(os.path.join(OUT, path), "w") as fh:
                 json.dump(dict(property=pid, kind="bounded", check=b["name"], **v), fh, indent=1)
             violations.append((dict(name=b["name"] + ":" + v.get("case", "")), path, True))
 
@@ -149,8 +150,14 @@ def conclude(pid, tier, seed, reg, spec, keys, fn_infos, problems, jobs, results
             "extraction drops docstrings, annotations, decorators (modelled by contract kind) -- see DESIGN.md 2.1",
         ],
     )
-    os.makedirs(os.path.join(ROOT, "evidence"), exist_ok=True)
-    with open(os.path.join(ROOT, "evidence", f"{pid}.json"), "w") as fh:
+    if bounded:
+        # exploration-style keys for the bounded stand-ins (measured on this run; never added to 'discharged')
+        ev["coverage"]["evaluations"] = sum(b.get("cases", 0) for b in bounded)
+        ev["coverage"]["distinct_nontrivial"] = sum(b.get("distinct_nontrivial", 0) for b in bounded)
+        ev["coverage"]["rule"] = " || ".join(f"{b.get('name')}: {b.get('bound', '')}" for b in bounded)
+        ev["coverage"]["samples"] = samples + [dict(bounded_check=b.get("name"), case=s_) for b in bounded for s_ in b.get("samples", [])[:2]]
+    os.makedirs(os.path.join(OUT, "evidence"), exist_ok=True)
+    with open(os.path.join(OUT, "evidence", f"{pid}.json"), "w") as fh:
         json.dump(ev, fh, indent=1, default=str)
     for ln in lines:
         print(ln)
